@@ -261,8 +261,8 @@ inductive Policy where
   /-- duplicate ⇔ same core item **and** same children: `__hash__` includes the children, `__eq__`
       does not, and a `set` compares hashes first — the code as it is today -/
   | impl
-  /-- `impl` + `complete` refuses a finished state that derives its nonterminal from the same
-      nonterminal over the same span (the repair proposed for C06) -/
+  /-- `impl` + `complete` does not complete a finished state whose nonterminal one of its own descendants
+      already derives over the same span (the repair of C06: `ParseState.covering`) -/
   | acyclic
   deriving DecidableEq
 
@@ -348,7 +348,9 @@ def coverAt (s : St) (k : Nat) : Option (List NT) :=
   | none => none
 
 /-- one iteration of the loop in `complete`: `s.next()` + the completed subtree (or its spliced
-    children), and the covering bookkeeping of the acyclic policy -/
+    children), and the covering bookkeeping of the acyclic policy (`spanning` in the code: the completed
+    state and what covers it if nothing but empty children precede it; what covers `s` if the completed
+    state is empty) -/
 def advance (p : Policy) (k : Nat) (t : St) (s : St) : Option St :=
   let params : Option String × Option String :=
     match s.item.sym? with
@@ -366,9 +368,17 @@ def advance (p : Policy) (k : Nat) (t : St) (s : St) : Option St :=
         let c1 := if t.item.origin = k then (coverAt s k).getD [] else []
         some (k, t.item.lhs :: (c0 ++ c1))
       else s.cover
-    let s' : St := { item := it, kids := kids, cover := cover }
-    if it.finished && ((coverAt s' k).getD []).contains it.lhs then none else some s'
+    some { item := it, kids := kids, cover := cover }
   | _ => some { item := it, kids := kids, cover := none }
+
+/-- the cut of the acyclic policy, at the head of `complete(state, …)`: a finished state whose nonterminal
+    is already derived, over the same span, by one of its own descendants is not completed into its parents
+    (in COMPLETE mode every completion is that of a finished rule, so the `finished` flag the code keeps
+    next to the nonterminal is constantly `True` and is not modelled) -/
+def cyclicAt (p : Policy) (k : Nat) (s : St) : Bool :=
+  match p with
+  | .acyclic => ((coverAt s k).getD []).contains s.item.lhs
+  | _ => false
 
 /-- walk of `place_repetition_shortcut` towards the beginner; `none` = give up -/
 def shortcutWalk (cols : List Col) (x : NT) : Nat → St → St → Option St
@@ -432,7 +442,8 @@ def step (c : Cfg) (m : M) : Res :=
       | some s =>
         if s.item.finished then
           let out := if s.item.lhs = .start ∧ m.k + 1 = c.ncols then m.out ++ s.kids else m.out
-          .next { m with idx := m.idx + 1, frame := some (s, 0), out := out }
+          .next { m with idx := m.idx + 1, frame := if cyclicAt c.policy m.k s then none else some (s, 0),
+                         out := out }
         else
           match s.item.sym? with
           | none => .next { m with idx := m.idx + 1 }
